@@ -1,6 +1,7 @@
 package main
 
 import (
+	"os"
 	"fmt"
 	"strings"
 	"time"
@@ -85,6 +86,14 @@ func c04One(o *out, text string, params map[string]interface{}, tag string) {
 	o.count(tag)
 	rp := map[string]interface{}{"op": "total", "text": text, "params": fmt.Sprintf("%#v", params)}
 	budget := time.Duration(len(text))*20*time.Microsecond + 200*time.Millisecond
+	// never a hang: a parse that has not returned after 100 budgets (and at least 10 s) is reported, and the run ends
+	// there - a goroutine spinning inside the parser cannot be stopped
+	watchdog := time.AfterFunc(100*budget+10*time.Second, func() {
+		o.fail("", fmt.Sprintf("parsing %q did not return within %v: the parser hangs", text, 100*budget+10*time.Second), rp)
+		o.finish()
+		os.Exit(0)
+	})
+	defer watchdog.Stop()
 	// ParseStatement
 	t0 := time.Now()
 	st, err, pn := addParseStmtCase(o, text, params)
@@ -184,8 +193,11 @@ func propC04(o *out, r *rng, thorough bool) {
 		"SELECT v FROM m WHERE time > 1.5.5", "CREATE CONTINUOUS QUERY q ON d BEGIN SELECT count(v) INTO t FROM m GROUP BY time() END",
 		"CREATE CONTINUOUS QUERY q ON d BEGIN SELECT count(v) INTO t FROM m GROUP BY time(x) END", "CREATE CONTINUOUS QUERY q ON d BEGIN SELECT count(v) INTO t FROM m GROUP BY time(1s, 2s, 3s) END",
 		"CREATE CONTINUOUS QUERY q ON d RESAMPLE FOR 1s BEGIN SELECT count(v) INTO t FROM m GROUP BY time(0s) END", "CREATE CONTINUOUS QUERY q ON d BEGIN SELECT count(v) INTO t FROM m GROUP BY host, time(1) END",
-		"CREATE CONTINUOUS QUERY q ON d BEGIN SELECT count(v) FROM m GROUP BY time(1m) END", "CREATE CONTINUOUS QUERY q ON d BEGIN SELECT v INTO t FROM m END garbage", "KILL QUERY 99999999999999999999", "DROP SHARD -1", "CREATE RETENTION POLICY p ON d DURATION 1h REPLICATION 0", "SELECT v INTO FROM m"} {
-		for _, ps := range []map[string]interface{}{nil, {"p": int64(1)}, {"p": "s"}, {"p": map[string]interface{}{"regex": "("}}, {"p": map[string]interface{}{"duration": "zz"}}, {"p": float64(-1.5)}, {"p": true}} {
+		"CREATE CONTINUOUS QUERY q ON d BEGIN SELECT count(v) FROM m GROUP BY time(1m) END", "CREATE CONTINUOUS QUERY q ON d BEGIN SELECT v INTO t FROM m END garbage", "KILL QUERY 99999999999999999999", "DROP SHARD -1", "SELECT mean(v) FROM m GROUP BY time(5µ1m)", "SELECT v FROM m WHERE time > now() - 1µ2m", "SELECT v FROM m WHERE d = $p AND e = 7µ1m",
+		"SELECT *::foo FROM cpu", "SELECT *::\n  foo FROM cpu", "SELECT *:: FROM m", "SELECT x::foo FROM m", "SELECT x:: FROM m", "SELECT mean(*::foo) FROM m", "SELECT *::field::tag FROM m",
+		"SELECT a, *::\r\n\tbar, c FROM m", "SELECT * ::field FROM m", "SELECT v FROM m GROUP BY *::foo", "SELECT DISTINCT 5 FROM m", "SELECT DISTINCT( FROM m", "SELECT count(DISTINCT) FROM m",
+		"SELECT value /* a * b / c", "/*", "SELECT 1 /* x *", "SELECT v FROM m -- c", "SELECT v FROM m /* never closed", "CREATE RETENTION POLICY p ON d DURATION 3µ4ms REPLICATION 1", "CREATE RETENTION POLICY p ON d DURATION 1h REPLICATION 0", "SELECT v INTO FROM m"} {
+		for _, ps := range []map[string]interface{}{nil, {"p": int64(1)}, {"p": "s"}, {"p": map[string]interface{}{"regex": "("}}, {"p": map[string]interface{}{"duration": "zz"}}, {"p": map[string]interface{}{"duration": "7µ1m"}}, {"p": float64(-1.5)}, {"p": true}} {
 			c04One(o, w, ps, "witness")
 		}
 	}
